@@ -181,6 +181,14 @@ class VExc(V):
         return 'VExc(%s)' % self.cls.__name__
 
 
+class VAttrs(V):
+    """Plain immutable object with attributes (e.g. codecs.CodecInfo)."""
+    tname = 'object'
+
+    def __init__(self, attrs):
+        self.attrs = dict(attrs)
+
+
 class VMatch(V):
     """Result of re match: groups by name/index -> VStr or VNone."""
     tname = 'match'
